@@ -176,6 +176,8 @@ class Individual(metaclass=ABCMeta):
     def from_dict(dictionary):
         individual = Individual()
         individual.id = dictionary['id']
+        # new individuals must not get the id of a loaded one
+        Individual.counter = max(Individual.counter, individual.id + 1)
 
         individual.vector = dictionary['vector']
         individual.costs = dictionary['costs']
